@@ -60,7 +60,7 @@ def dumpItem (i : Item) : List String :=
    ["handler", q "@handler", q i.handler, "route", q i.method, q (pathText i.path)] ++ dumpBody i.req ++ dumpBody i.resp)
 
 def dumpStmt : Stmt → List String
-  | .syntax v => ["syntax", q v]
+  | .syntaxS v => ["syntax", q v]
   | .info kvs => "info" :: dumpKVs kvs
   | .importLit v => ["import", q v]
   | .importGroup vs => "imports" :: "(" :: (vs.map q ++ [")"])
